@@ -140,5 +140,17 @@ func GenJournalBody(c *simrt.Chooser, pools *Pools, includes []string, fileNo in
 		out = append(out, GenTxn(c, c.Choose("day", 300), pools)...)
 		out = append(out, line(""))
 	}
+	// the same transaction, verbatim, once or twice in this file and possibly in
+	// others too: entries of the transaction index that differ only in the file
+	// (and, within a file, only in the line)
+	if n := c.Weighted("same-txn", []int{5, 2, 2}); n > 0 {
+		for i := 0; i < n; i++ {
+			out = append(out,
+				line("2024-01-02 recurring", Occ{Kind: "payee", Name: "recurring", Start: 11, End: 20}),
+				line("    expenses:rent  500 USD", Occ{Kind: "account", Name: "expenses:rent", Start: 4, End: 17}, Occ{Kind: "commodity", Name: "USD", Start: 23, End: 26}),
+				line("    assets:bank", Occ{Kind: "account", Name: "assets:bank", Start: 4, End: 15}),
+				line(""))
+		}
+	}
 	return out
 }
